@@ -204,6 +204,10 @@ type query struct {
 	OK      bool
 	Kind    string
 	Hostile bool
+	// Prefixed: answered by delegation through an embedding that carries a doc comment of its own - the generated
+	// helper may put that comment's first line in front of the answer's first line (the statement is silent on it):
+	// judged up to such a prefix
+	Prefixed bool
 }
 
 func lit(ss []string) string {
@@ -364,6 +368,11 @@ func (g *pkgGen) generate(pkgLevel bool) (src string, queries []query) {
 						hasExported = true
 					}
 				} else {
+					if r.Intn(2) == 0 {
+						// the embedding itself is documented
+						f.doc = genDoc(r, []string{f.embedded})
+						f.doc.write(&b, "\t")
+					}
 					if f.embPtr {
 						fmt.Fprintf(&b, "\t*%s\n", f.embedded)
 					} else {
@@ -490,7 +499,7 @@ func (g *pkgGen) generate(pkgLevel bool) (src string, queries []query) {
 						if own[n] || !(n[0] >= 'A' && n[0] <= 'Z') {
 							continue
 						}
-						queries = append(queries, query{Type: t.name, Expr: expr, Names: []string{n}, Want: nonNil(ef.doc.expectedFor(n)), OK: true, Kind: "delegated-field", Hostile: true})
+						queries = append(queries, query{Type: t.name, Expr: expr, Names: []string{n}, Want: nonNil(ef.doc.expectedFor(n)), OK: true, Kind: "delegated-field", Hostile: true, Prefixed: len(f.doc.comment) > 0})
 					}
 				}
 				continue
@@ -530,12 +539,17 @@ func testFile(pkg string, qs []query) string {
 	fmt.Fprintf(&b, "package %s\n\nimport (\n\t\"fmt\"\n\t\"testing\"\n)\n\n", pkg)
 	b.WriteString("type c16doc interface {\n\tRuntimeDoc(names ...string) ([]string, bool)\n}\n\n")
 	b.WriteString("func c16eq(a, b []string) bool {\n\tif len(a) != len(b) {\n\t\treturn false\n\t}\n\tfor i := range a {\n\t\tif a[i] != b[i] {\n\t\t\treturn false\n\t\t}\n\t}\n\treturn true\n}\n\n")
+	b.WriteString("func c16eqPrefixed(a, b []string) bool {\n\tif len(a) != len(b) {\n\t\treturn false\n\t}\n\tfor i := range a {\n\t\tif i == 0 && len(a[0]) >= len(b[0]) && a[0][len(a[0])-len(b[0]):] == b[0] {\n\t\t\tcontinue\n\t\t}\n\t\tif a[i] != b[i] {\n\t\t\treturn false\n\t\t}\n\t}\n\treturn true\n}\n\n")
 	b.WriteString("func TestC16RuntimeDoc(t *testing.T) {\n")
 	for i, q := range qs {
 		fmt.Fprintf(&b, "\t{\n\t\tvar v any = %s\n\t\td, isDoc := v.(c16doc)\n\t\tif !isDoc {\n\t\t\tfmt.Printf(\"C16MISMATCH %d no RuntimeDoc method\\n\")\n\t\t} else {\n", q.Expr, i)
 		fmt.Fprintf(&b, "\t\t\tgot, ok := d.RuntimeDoc(%s)\n", strings.Join(quoteAll(q.Names), ", "))
 		fmt.Fprintf(&b, "\t\t\twant := %s\n", lit(q.Want))
-		fmt.Fprintf(&b, "\t\t\tif ok != %v || !c16eq(got, want) {\n\t\t\t\tfmt.Printf(\"C16MISMATCH %d got (%%q, %%v) want (%%q, %v)\\n\", got, ok, want)\n\t\t\t}\n\t\t}\n\t}\n", q.OK, i, q.OK)
+		eq := "c16eq"
+		if q.Prefixed {
+			eq = "c16eqPrefixed"
+		}
+		fmt.Fprintf(&b, "\t\t\tif ok != %v || !"+eq+"(got, want) {\n\t\t\t\tfmt.Printf(\"C16MISMATCH %d got (%%q, %%v) want (%%q, %v)\\n\", got, ok, want)\n\t\t\t}\n\t\t}\n\t}\n", q.OK, i, q.OK)
 	}
 	fmt.Fprintf(&b, "\tfmt.Printf(\"C16DONE %s %d\\n\")\n}\n", pkg, len(qs))
 	return b.String()
